@@ -33,6 +33,7 @@ func init() {
 		rtPkg + ".Tag":           rtTag,
 		rtPkg + ".Note":          rtNote,
 		rtPkg + ".Threads":       rtThreads,
+		rtPkg + ".ThreadsIdx":    rtThreads,
 		rtPkg + ".AssertStatic":  rtAssertStatic,
 		rtPkg + ".Havoc":         rtHavoc,
 		rtPkg + ".NoAlias":       rtNoAlias,
